@@ -21,7 +21,7 @@ RULE = (
     "distinguishable positions relative to (lambda_0, lambda_i, cap): end "
     "frames over 7 symbols (<l0, ==l0, between, ==li, inside, ==cap, >cap), "
     "interior frames over 5 (<li, ==li, inside, ==cap, >cap), and the 5-symbol "
-    "variant with lambda_0 == lambda_i ([0+]); quick: length <= 6, thorough: "
+    "variant with lambda_0 == lambda_i ([0+]); quick: length <= 7, thorough: "
     "<= 8 (7/5-symbol) and <= 9 (5-symbol).  Family 'rand': lengths 1-40, iid / random-walk / real-valued "
     "draws over the thresholds, their midpoints and outer values (equality "
     "with an interface and jumps over the region are frequent), 2-6 "
@@ -75,9 +75,9 @@ def _exh_items(a, nmax, chunk):
 def plan(tier, seed):
     rng = random.Random(f"C10-{seed}")
     quick = tier == "quick"
-    items = (_exh_items(7, 6 if quick else 8, 2500 if quick else 31000) +
-             _exh_items(5, 6 if quick else 9, 2500 if quick else 31000))
-    nexh = 8 if quick else 64
+    items = (_exh_items(7, 7 if quick else 8, 3200 if quick else 31000) +
+             _exh_items(5, 7 if quick else 9, 3200 if quick else 31000))
+    nexh = 16 if quick else 64
     bins = [[0, []] for _ in range(nexh)]
     for it in sorted(items, key=lambda x: -x["size"]):
         b = min(bins, key=lambda x: x[0])
@@ -85,7 +85,7 @@ def plan(tier, seed):
         b[1].append(it)
     jobs = [{"kind": "exh", "items": b[1], "seed": rng.randrange(2 ** 31),
              "hashseed": rng.randrange(100)} for b in bins if b[1]]
-    nrand, count = (16, 1000) if quick else (96, 6000)
+    nrand, count = (16, 1600) if quick else (96, 4500)
     for _ in range(nrand):
         jobs.append({"kind": "rand", "seed": rng.randrange(2 ** 31),
                      "count": count, "hashseed": rng.randrange(100)})
